@@ -595,6 +595,29 @@ class Exec:
         return out
 
     def ev_Dict(self, e, st, d):
+        ann0 = getattr(self, "pending_ann", None)
+        if e.keys and ann0 and ann0[0] == "dict" and ann0[1] == ("str",) and all(isinstance(k, ast.Constant) and isinstance(k.value, str) for k in e.keys) \
+                and len({k.value for k in e.keys}) == len(e.keys):
+            # {"a": v1, "b": v2, ...} assigned to a name / field declared Dict[str, T]: a new dict object holding exactly these (distinct) keys
+            states = [(st.copy(), [])]
+            for k, v in zip(e.keys, e.values):
+                nxt = []
+                for s1, vs in states:
+                    self.pending_ann = ann0[2]
+                    try:
+                        res = self.ev(v, s1, d)
+                    finally:
+                        self.pending_ann = ann0
+                    nxt += [(s2, vs + [(k.value, val)]) for s2, val in res]
+                states = nxt
+            out = []
+            for s1, vs in states:
+                s1 = s1.copy()
+                dct = s1.new_dict(ann0, "dictlit")
+                for key, val in vs:
+                    s1.dict_set(dct, V(("str",), z3.StringVal(key)), val)
+                out.append((s1, dct))
+            return out
         if e.keys:
             states = [(st, [])]
             for k, v in zip(e.keys, e.values):
